@@ -4,7 +4,7 @@ from __future__ import annotations
 import ast
 from typing import Optional
 
-from ..core.repo import (AnalysisError, Repo, call_name, calls_in, definitions, dotted, func_params, is_const, kwarg, names_in,
+from ..core.repo import (AnalysisError, Repo, parent, call_name, calls_in, definitions, dotted, func_params, is_const, kwarg, names_in,
                          stmts_in_order, unparse, walk_no_nested_defs)
 from ..domains.codec import (SER, ReaderModel, WriterModel, attrs_store_key, eval_key_filter,
                              flatten_if_chain, key_pattern)
@@ -435,6 +435,8 @@ def run(check, repo: Repo) -> None:
     # ---- R11 raw-array probe falls back on every failure ------------------------------------
     _rule_probe_handlers(check, repo)
     _rule_numeric_key_order(check, repo)
+    _rule_fresh_root(check, repo)
+    _rule_tensor_flag(check, repo)
 
     # ---- R12 no cross-call state in the codec: caches are keyed on everything the cached value depends on --------
     from ..domains.memo import memo_findings, persistent_containers
@@ -1168,6 +1170,76 @@ def _rule_config(check, repo: Repo) -> None:
                 bad.append(f"{q}: `{unparse(n.test)}`")
     check.decide(not bad, "C01-R9", "codec functions never branch on the compression setting",
                  "", mod.line(save_fn), fail_detail=f"codec behaviour depends on compression: {bad}")
+
+
+def _rule_fresh_root(check, repo: Repo) -> None:
+    """C01-R13 — an overwriting save starts from an empty store.  Two guarantees exist: the root group is created with `overwrite=True`, and the `mode == 'o'` arm
+    removes an existing directory.  Either suffices; with neither, a second save(mode='o') onto an existing directory store re-opens the old group and load() returns a
+    mixture of the two objects (stale arrays, attributes and dict keys survive)."""
+    smod, save = repo.func(f"{SER}:AutoSerialize.save")
+    roots = [c for c in calls_in(save) if (call_name(c) or "").split(".")[-1] in ("group", "open_group", "create_group") and (call_name(c) or "").startswith("zarr")]
+    helper_roots = []
+    for c in calls_in(save):
+        cn = call_name(c) or ""
+        if cn.startswith(("self.", "cls.", "AutoSerialize.")) and repo.has(f"{SER}:AutoSerialize.{cn.split('.')[-1]}"):
+            _m, h = repo.func(f"{SER}:AutoSerialize.{cn.split('.')[-1]}")
+            hr = [x for x in calls_in(h) if (call_name(x) or "").split(".")[-1] in ("group", "open_group") and (call_name(x) or "").startswith("zarr")]
+            if hr and any(isinstance(r, ast.Return) for r in ast.walk(h)):
+                helper_roots += hr
+    roots += helper_roots
+    if not roots:
+        raise AnalysisError("save: creation of the root group not found")
+    # the directory-store root: the call whose store argument is built from the target path (not the temporary directory of the zip branch)
+    dir_arm = [n for n in ast.walk(save) if isinstance(n, ast.If) and unparse(n.test) in ("store == 'zip'", "store == 'dir'")]
+    ov_all = all(is_const(kwarg(c, "overwrite"), True) for c in roots)
+    mode_o = [n for n in ast.walk(save) if isinstance(n, ast.If) and "mode == 'o'" in unparse(n.test)]
+    if not mode_o:
+        raise AnalysisError("save: the mode == 'o' arm not found")
+    rm_dir = []
+    for n in ast.walk(mode_o[0]):
+        if isinstance(n, ast.Call) and (call_name(n) or "").endswith("rmtree"):
+            # guards between the mode arm and the call: a guard that excludes the directory store (`store != 'dir'`) voids the guarantee for it
+            cur, excl = n, False
+            while cur is not mode_o[0] and cur is not None:
+                par = parent(cur)
+                if isinstance(par, ast.If) and cur in par.body and any(isinstance(x, ast.Compare) and unparse(x) in ("store != 'dir'", "store == 'zip'") for x in ast.walk(par.test)):
+                    excl = True
+                cur = par
+            if not excl:
+                rm_dir.append(n)
+    key_ = "save[dir, mode='o']: the store is empty when the object is written (root group created with overwrite=True, or the existing directory removed first)"
+    check.decide(ov_all or bool(rm_dir), "C01-R13", key_, f"overwrite=True on every root: {ov_all}; directory removed under mode 'o': {bool(rm_dir)}", smod.line(roots[0]), definite=True,
+                 fail_detail="neither guarantee holds: the root group is (re)opened without overwrite=True and the mode='o' arm no longer removes an existing directory store — saving a second "
+                             "object over a directory store keeps the first one's arrays, attributes and dict keys; load() returns a mixture")
+
+
+def _rule_tensor_flag(check, repo: Repo) -> None:
+    """C01-R14 — the recorded `_tensor_requires_grad` flag.  Harmless while nothing reads it; once a reader restores requires_grad from it, it must be the tensor's own
+    `requires_grad` (for every dtype — complex tensors require grad too)."""
+    smod, sv = repo.func(f"{SER}:AutoSerialize._serialize_value")
+    stores = [n for n in ast.walk(sv) if isinstance(n, ast.Assign) and isinstance(n.targets[0], ast.Subscript) and is_const(n.targets[0].slice, "_tensor_requires_grad")]
+    if not stores:
+        raise AnalysisError("_serialize_value: `_tensor_requires_grad` is not recorded")
+    readers = []
+    for q_ in (f"{SER}:AutoSerialize._recursive_load", f"{SER}:AutoSerialize._deserialize_container"):
+        _m, f_ = repo.func(q_)
+        for c in calls_in(f_):
+            if isinstance(c.func, ast.Attribute) and c.func.attr == "get" and c.args and is_const(c.args[0], "_tensor_requires_grad"):
+                readers.append((q_.split(".")[-1], c))
+        for x in ast.walk(f_):
+            if isinstance(x, ast.Subscript) and isinstance(x.ctx, ast.Load) and is_const(x.slice, "_tensor_requires_grad"):
+                readers.append((q_.split(".")[-1], x))
+    for st in stores:
+        v = st.value
+        while isinstance(v, ast.Call) and call_name(v) == "bool" and v.args:
+            v = v.args[0]
+        exact = isinstance(v, ast.Attribute) and v.attr == "requires_grad" and isinstance(v.value, ast.Name)
+        key_ = "_serialize_value[tensor]: the recorded requires_grad flag is the tensor's own flag wherever a reader restores from it"
+        if exact or not readers:
+            check.holds("C01-R14", key_, "exact flag" if exact else "narrowed flag, but no reader consumes it", smod.line(st))
+        else:
+            check.violated("C01-R14", key_, f"`{unparse(st.value)[:60]}` is not the tensor's requires_grad, and {readers[0][0]} restores requires_grad from it: tensors for which the "
+                           f"expression differs (e.g. complex tensors under an `is_floating_point()` conjunct) silently load with requires_grad=False", smod.line(st), definite=True)
 
 
 MANIFEST = {
